@@ -3,6 +3,7 @@
   no fault plan). Helper lemmas.
 -/
 import HSModel.Proofs.MetaRun
+import HSModel.Proofs.MetaDocs
 namespace HS
 variable (cfg : Config) (o : Oracle)
 
@@ -86,5 +87,54 @@ theorem delete_missing_last (st : Store) (log : List Eff) (p c : Str) (ls : List
     rw [inRefs_render p ls hls]; simpa using hin
   delete_simp hp h1 h2 hin' hls p ls hobj, hrest
   simp [renderLines]
+
+/-! ### the same runs, documents side: the pid's directory is emptied -/
+
+/-- what `delete_object(p)` leaves of the documents -/
+structure DocsDropped (p : Str) (st st' : Store) : Prop where
+  get : ∀ d m, st'.mdocs.get (d, m) = if d = o.hId p then none else st.mdocs.get (d, m)
+  dirs : st'.dirs = st.dirs
+  tmp : st'.tmpMeta = st.tmpMeta
+
+local macro "delete_simp_docs" hp:ident h1:ident h2:ident hin:ident hls:ident p:ident ls:ident extra:term "," extra2:term "," hpl:ident : tactic =>
+  `(tactic| simp [calm, calmL, deleteObject, findObject, runsimp, checkString_of_ok $hp, $h1:ident, $h2:ident, $hin:ident,
+    updateRefsRemove, removeLines_render $p $ls $hls, overwrite_truncate, deleteMarked, renderLines_eq_nil,
+    Prog.run_bind_pe, Prog.run_bind, Loc.marker, dmc_run_eq, dmc_lk, dmc_fault, dmc_pid, dmc_cid, dmc_obj, dmc_tr, dmc_to, dmc_all_get, dmc_all_dirs, dmc_all_tmp,
+    $hpl:ident, $extra:term, $extra2:term])
+
+theorem delete_docs (st : Store) (log : List Eff) (p c : Str) (ls : List Str)
+    (hp : checkStringOk p = true)
+    (h1 : st.pidRefs.get (o.hId p) = some c) (h2 : st.cidRefs.get c = some (renderLines ls))
+    (hls : ∀ l ∈ ls, hasSpace l = false) (hin : p ∈ ls) (hpl : DocsPlainM st.mdocs st.dirs) :
+    ∃ r w', (deleteObject cfg o (.str p)).run (calm st log) = (r, w') ∧ DocsDropped o p st w'.st := by
+  have hin' : inRefs p (renderLines ls) = true := by
+    rw [inRefs_render p ls hls]; simpa using hin
+  by_cases hrest : ls.filter (fun l => !decide (l = p)) = []
+  · cases hobj : st.objs.get c with
+    | some x =>
+      refine ⟨_, _, rfl, ?_⟩
+      constructor
+      · intro d m; delete_simp_docs hp h1 h2 hin' hls p ls hobj, hrest, hpl
+      · delete_simp_docs hp h1 h2 hin' hls p ls hobj, hrest, hpl
+      · delete_simp_docs hp h1 h2 hin' hls p ls hobj, hrest, hpl
+    | none =>
+      refine ⟨_, _, rfl, ?_⟩
+      constructor
+      · intro d m; delete_simp_docs hp h1 h2 hin' hls p ls hobj, hrest, hpl
+      · delete_simp_docs hp h1 h2 hin' hls p ls hobj, hrest, hpl
+      · delete_simp_docs hp h1 h2 hin' hls p ls hobj, hrest, hpl
+  · cases hobj : st.objs.get c with
+    | some x =>
+      refine ⟨_, _, rfl, ?_⟩
+      constructor
+      · intro d m; delete_simp_docs hp h1 h2 hin' hls p ls hobj, hrest, hpl
+      · delete_simp_docs hp h1 h2 hin' hls p ls hobj, hrest, hpl
+      · delete_simp_docs hp h1 h2 hin' hls p ls hobj, hrest, hpl
+    | none =>
+      refine ⟨_, _, rfl, ?_⟩
+      constructor
+      · intro d m; delete_simp_docs hp h1 h2 hin' hls p ls hobj, hrest, hpl
+      · delete_simp_docs hp h1 h2 hin' hls p ls hobj, hrest, hpl
+      · delete_simp_docs hp h1 h2 hin' hls p ls hobj, hrest, hpl
 
 end HS
